@@ -183,6 +183,16 @@ Print Assumptions base64_table_inverts_alphabet.
 Example base64_table_nv : length gen_base64de = 123%nat /\ nth 122 gen_base64de 0 = 51 /\ nth 43 gen_base64de 0 = 62.
 Proof. vm_compute. repeat split. Qed.
 
+(* the translator emits the element width of the two integer tables and refuses entries that do not fit; seen from Coq: *)
+Example tables_fit_their_types : gen_base64de_bits = 8 /\ gen_utf8Offsets_bits = 32
+  /\ forallb (fun v => andb (0 <=? v) (v <? 2 ^ gen_base64de_bits)) gen_base64de = true
+  /\ forallb (fun v => andb (0 <=? v) (v <? 2 ^ gen_utf8Offsets_bits)) gen_utf8Offsets = true
+  /\ forallb (fun v => andb (0 <=? v) (v <? 128)) gen_hexdigits = true /\ length gen_hexdigits = 16%nat.
+Proof.
+  split; [reflexivity|]. split; [reflexivity|]. split; [vm_compute; reflexivity|]. split; [vm_compute; reflexivity|].
+  split; vm_compute; reflexivity.
+Qed.
+
 Theorem base64_in_bounds : forall inp, (exists r, from_base64 inp = Ok r) /\ (forall e, from_base64 inp <> Err e).
 Proof. exact (fun inp => conj (from_base64_in_bounds inp) (from_base64_never_fails inp)). Qed.
 Print Assumptions base64_in_bounds.
